@@ -433,9 +433,26 @@ package logqlengine
 //@ func BuildPipeline
 //@   trusted
 //@   modifies *
+//@ func (SupportedOps).Supports
+//@   pure
+
+// Every selector matcher goes to exactly one side (storage parameter or engine prefilter); line
+// filters are handed to storage only while the line is still the stored line.
 //@ func extractQueryConditions
-//@   trusted
+//@   capture sp = call(caps.Label.Supports, 0)
+//@   capture bm = call(buildLabelMatcher, 0)
+//@   capture ls = call(caps.Line.Supports, 0)
 //@   modifies *
+//@   loop 0 modifies *
+//@   loop 0 invariant rangeindex+1 <= len(sel.Matchers)
+//@   loop 0 body_ensures[matcher-to-exactly-one-side] sp_called && sp_a0 == lm.Op && (sp_r0 == (len(cond.params.Labels) == head(len(cond.params.Labels))+1 && len(prefilters) == head(len(prefilters)))) && (!sp_r0 == (len(prefilters) == head(len(prefilters))+1 && len(cond.params.Labels) == head(len(cond.params.Labels))))
+//@   loop 0 body_ensures[storage-gets-the-same-matcher] sp_r0 ==> same(cond.params.Labels[len(cond.params.Labels)-1], lm)
+//@   loop 0 body_ensures[engine-evaluates-the-same-matcher] !sp_r0 ==> bm_called && same(bm_a0, lm) && bm_r1 == nil && prefilters[len(prefilters)-1] == bm_r0
+//@   loop 0 body_ensures[current-matcher] same(lm, sel.Matchers[rangeindex])
+//@   loop 1 modifies *
+//@   loop 1 body_ensures[continues-only-while-line-is-unmodified] !typeis[*logql.LineFormat](stage) && !typeis[*logql.DecolorizeExpr](stage) && !typeis[*logql.UnpackLabelParser](stage)
+//@   loop 1 body_ensures[offloads-only-supported-plain-line-filters] len(cond.params.Line) == head(len(cond.params.Line))+1 ==> typeis[*logql.LineFilter](stage) && !as[*logql.LineFilter](stage).IP && ls_called && ls_r0 && ls_a0 == as[*logql.LineFilter](stage).Op && same(cond.params.Line[len(cond.params.Line)-1], *as[*logql.LineFilter](stage))
+//@   loop 1 body_ensures[at-most-one-per-stage] len(cond.params.Line) == head(len(cond.params.Line)) || len(cond.params.Line) == head(len(cond.params.Line))+1
 //@ func addDuration
 //@   inline
 //@ func (EvalParams).IsInstant
@@ -519,3 +536,7 @@ package logqlengine
 //@   ensures[labels-of-the-record] ret0 ==> al_called && same(al_a0, e.set) && same(al_a1, i.by) && same(al_a2, i.without) && s.Set == logqlmetric.AggregatedLabels(al_r0)
 //@   ensures[ends-only-with-source] !ret0 ==> nx_called && !nx_r0
 //@   loop 0 body_ensures[skips-only-lines-without-sample] nx_r0 && ex_called && !ex_r1
+
+//@ func (*SupportedOps).Add
+//@   modifies *caps
+//@   loop 0 modifies *caps
